@@ -382,6 +382,45 @@ class C17Machine(Machine):
                         len(tidx), 'none' if all(t is None for t in E['time_step']) else 'some',
                         'y' if E['btim'] else 'n', 'y' if E['etim'] else 'n', 'date' if E['date'] else 'nodate')
                     check('acquisition_time', got, at_ok, site, accl)
+                    # the same rule on channel-sliced views: the view has its own channel list, so the time channel
+                    # may have moved or be gone (then start/end apply)
+                    D_ = len(spec['names'])
+                    for vname, key in (('tail', slice(1, None)), ('rev', slice(None, None, -1)), ('head', slice(0, max(1, D_ - 1))),
+                                       ('list', list(range(D_ - 1, -1, -1))[:max(1, D_ - 1)])):
+                        if D_ < 2:
+                            break
+                        try:
+                            v = d[:, key]
+                        except Exception as e:
+                            V.append(violation('C17/accessor-raises', 'view-%s/slicing' % vname, '%s: %s' % (type(e).__name__, e)))
+                            continue
+                        vnames = list(np.array(spec['names'], dtype=object)[key]) if not isinstance(key, list) else \
+                            [spec['names'][k] for k in key]
+                        vt = [j for j, nm in enumerate(vnames) if nm.lower() == 'time']
+                        if len(vt) >= 2:
+                            continue
+                        vacc = []
+                        if len(vt) == 1:
+                            col = np.asarray(v.view(np.ndarray))[:, vt[0]]
+                            span_v = float(col[-1]) - float(col[0])
+                            for t in E['time_step']:
+                                if t is None:
+                                    vacc += fallback
+                                else:
+                                    vacc.append(span_v * t)
+                        else:
+                            vacc = fallback
+                        gv = acc('acquisition_time', lambda: v.acquisition_time)
+
+                        def at_ok_v(g, vacc=vacc):
+                            for a in vacc:
+                                if a is None and g is None:
+                                    return True
+                                if a is not None and g is not None and abs(float(g) - a) <= 2e-6 + rel * abs(a):
+                                    return True
+                            return False
+                        check('acquisition_time', gv, at_ok_v, 'view-%s/tch=%d' % (vname, len(vt)), vacc)
+                        bump(out['probes'], 'duration_checked_on_channel_sliced_view')
                     if len(tidx) == 1 and all(t is None for t in E['time_step']):
                         bump(out['probes'], 'time_channel_without_time_step')
                     if have_be and not E['date'] and len(tidx) == 0:
